@@ -15,7 +15,7 @@ var (
 	YieldFn func(pos int)
 	GoFn    func(f func())
 	// SpinLimit bounds the yields a Lock may spend waiting before it is reported as a deadlock.
-	SpinLimit = 20000
+	SpinLimit = 3000
 	// Deadlocks counts Lock calls that exceeded SpinLimit (read by the simulator after a run).
 	Deadlocks int
 )
